@@ -2,6 +2,7 @@
 package gen
 
 import (
+	"fmt"
 	"sort"
 	"strings"
 	"sync"
@@ -208,7 +209,9 @@ func KeepsUnknown(m protoreflect.Message) bool {
 
 func keepsUnknown(m protoreflect.Message, seen map[protoreflect.FullName]bool) bool {
 	md := m.Descriptor()
-	if v, ok := unkCache.Load(md.FullName()); ok {
+	// generated and dynamic messages of one descriptor differ: key by Go type too
+	key := fmt.Sprintf("%T|%s", m.Interface(), md.FullName())
+	if v, ok := unkCache.Load(key); ok {
 		return v.(bool)
 	}
 	if seen[md.FullName()] {
@@ -243,7 +246,7 @@ func keepsUnknown(m protoreflect.Message, seen map[protoreflect.FullName]bool) b
 			ok = false
 		}
 	}
-	unkCache.Store(md.FullName(), ok)
+	unkCache.Store(key, ok)
 	return ok
 }
 
